@@ -60,7 +60,7 @@ func affStr(p ref.Pt) string {
 func init() {
 	core.Register(&core.Check{
 		ID: "C08", Level: "exploration",
-		Rule: "elements E = {identity, G, -G, 2G, 3G, G_0, G_255, two PRF multiples} x 4 representations (Z=1, rescaled, (-x,-y), both; the flipped identity is (0,-1)); ALL pairs through Add/Sub/AddMixed with all aliasing patterns (fresh receiver, receiver=op1, =op2, =both), all elements through Double/Neg/Set/Normalize; ScalarMul for every (element, representation) x every scalar of S_edge (0,1,2,r-1,r-2,(r+-1)/2, every 2^k and 2^k+-1, GLV eigenvalue neighbours, PRF); laws (s+t)P=sP+tP, s(P+Q)=sP+sQ, 0*P, (r-1)P+P over S_small^2 x E; a case = (operation, operands, representations, aliasing); non-trivial = an operand not in normalised canonical form, an aliased receiver, or a scalar from the edge alphabet",
+		Rule:   "elements E = {identity, G, -G, 2G, 3G, G_0, G_255, two PRF multiples} x 4 representations (Z=1, rescaled, (-x,-y), both; the flipped identity is (0,-1)); ALL pairs through Add/Sub/AddMixed with all aliasing patterns (fresh receiver, receiver=op1, =op2, =both), all elements through Double/Neg/Set/Normalize; ScalarMul for every (element, representation) x every scalar of S_edge (0,1,2,r-1,r-2,(r+-1)/2, every 2^k and 2^k+-1, GLV eigenvalue neighbours, PRF); laws (s+t)P=sP+tP, s(P+Q)=sP+sQ, 0*P, (r-1)P+P over S_small^2 x E; a case = (operation, operands, representations, aliasing); non-trivial = an operand not in normalised canonical form, an aliased receiver, or a scalar from the edge alphabet",
 		Assume: []string{"oracle: independent affine/projective twisted-Edwards law over math/big, compared up to the class {P, P+(0,-1)}; every result must also be a valid curve point with Z != 0"},
 		Units:  c08Units,
 	})
